@@ -19,6 +19,7 @@ import OpyVerif.Generated.FormulasDefs
 import OpyVerif.Generated.BudgetDefs
 import OpyVerif.Generated.WalksDefs
 import OpyVerif.Generated.FindDefs
+import OpyVerif.Generated.PropsDefs
 import OpyVerif.Generated.ClipLoopsDefs
 /-
 Line-protocol driver: runs the *executable model definitions* on inputs sent by the Python
@@ -236,6 +237,8 @@ def step (d : DState) (line : String) : DState × String :=
   | ["w.pre", t] => match parseTree t with
     | some t => (d, showNats ((runWalk Opy.Gen.preOrderInit Opy.Gen.preOrderLoop (t.size + 2) t).filterMap PNode.id?))
     | none => (d, "bad-op")
+  | ["w.props", t] => match parseTree t with
+    | some t => let p := Opy.Gen.bfsProg.run t; (d, s!"{p.minD} {p.maxD} {p.leaves} {p.nodes}") | none => (d, "bad-op")
   | ["w.find", t, p] => match parseTree t, p.toNat? with
     | some t, some p => (d, foundStr (Opy.Gen.findProg.run t p none)) | _, _ => (d, "bad-op")
   | ["w.post", t] => match parseTree t with
